@@ -249,12 +249,13 @@ Names(E) == {e.name : e \in {x \in E : x.kind # "proxy"}} \cup UNION {RefsOf(e) 
 DefaultCtx == [dc |-> "dc1", op |-> ""]
 TcpCtx     == [dc |-> "dc1", op |-> "tcp"]
 AllOKIn(E, C) == \A s \in Names(E), ctx \in C : ChainOK(E, s, ctx)
-Broken(E, E2, C) == \E s \in Names(E) \cup Names(E2), ctx \in C : ChainOK(E, s, ctx) /\ ~ChainOK(E2, s, ctx)
 
 (* Property-conforming outcome of a proposed change E -> E2, judged in the contexts C:
-   "reject" when a chain that compiles would stop compiling, "ok" when everything compiles
-   afterwards, "any" when chains were already broken and stay so (the statement is silent). *)
-Outcome(E, E2, C) == IF Broken(E, E2, C) THEN "reject" ELSE IF AllOKIn(E2, C) THEN "ok" ELSE "any"
+   "ok" when everything compiles afterwards, "reject" when a chain that compiles would stop
+   compiling, "any" when chains were already broken and stay so (the statement is silent). *)
+Outcome(E, E2, C) ==
+  LET bad2 == {p \in (Names(E) \cup Names(E2)) \X C : ~ChainOK(E2, p[1], p[2])} IN
+  IF bad2 = {} THEN "ok" ELSE IF \E p \in bad2 : ChainOK(E, p[1], p[2]) THEN "reject" ELSE "any"
 
 CasPass(ents, c, k, n) ==
   LET ex == Lookup(ents, k, n) IN
